@@ -510,8 +510,14 @@ class CompositeFrontend(ConstrainedFrontend):
         if len(combined_noncommons):
             _, merged_noncommon = combined_noncommons[0].merge(combined_noncommons[1:], merge_conditions)
 
-            merged._owned_solvers.add(merged_noncommon)
-            merged._store_child(merged_noncommon)
+            if any(v in merged._solvers for v in merged_noncommon.variables):
+                # it mentions a variable of a common child (typically one of the merge conditions does): storing it
+                # under that name would replace the common child and lose its constraints, so it is added the way
+                # any constraint over several children is
+                merged.add(merged_noncommon.constraints)
+            else:
+                merged._owned_solvers.add(merged_noncommon)
+                merged._store_child(merged_noncommon)
 
         merged.constraints = list(itertools.chain.from_iterable(a.constraints for a in merged._solver_list))
         return True, merged
